@@ -347,7 +347,7 @@ theorem factorInv_eliminate (h : n ≤ m) (A : Mat ℝ m n) (k : Fin n) (s : Sta
       · have h1 : j ≠ k := by intro e; rw [e] at hjk; exact lt_irrefl _ hjk
         have h3 : ¬ j.val < k.val := by omega
         rw [if_neg (fun hh => by omega), if_neg (fun hh => by omega), if_neg (by omega)]
-        simp only [h1, hjk, h3, if_true, if_false]
+        simp only [hjk, h3, if_true, if_false]
         ring
     · have e1 : min k.val i.val = i.val := min_eq_right (by omega)
       have e2 : min (k.val + 1) i.val = i.val := min_eq_right (by omega)
@@ -375,10 +375,10 @@ theorem exchange_pivot_max (s : State ℝ m n) (k : Fin n) (kr : Fin m) (i : Fin
     by_cases h1 : i = kr
     · simp [h1]
     · by_cases h2 : i = p
-      · simp only [h1, h2, if_true, if_false]
+      · simp only [h2, if_true]
         rw [if_neg hpk]
         simpa using hp2 kr (le_refl _)
-      · simp only [h1, h2, if_false, if_true]
+      · simp only [h1, h2, if_false]
         exact hp2 i hi
 
 theorem factorInv_step (h : n ≤ m) (A : Mat ℝ m n) (k : Fin n) (s : State ℝ m n)
@@ -616,7 +616,7 @@ theorem foldl_mul_eq_prod (f : Fin n → ℝ) (c : ℝ) :
 theorem det_eq_prod (s : State ℝ n n) :
     det s = (s.pivsign : ℝ) * ∏ j : Fin n, s.lu.get j j := by
   unfold det
-  simp only [dif_pos rfl, Fin.cast_eq_self, ScalarReal.ofInt_eq]
+  simp only [Fin.cast_eq_self, ScalarReal.ofInt_eq]
   exact foldl_mul_eq_prod _ _
 
 theorem getL_lowerTriangular (s : State ℝ n n) : (toMatrix (getL s)).IsLowerTriangular := by
